@@ -56,7 +56,14 @@ TermBad(fr, labs) ==   \* labs: the labels (piece sequences) of one term
      \/ \E c \in 1..nf :
           LET v == lists[c][1][1] IN
             \/ \E q \in 1..Len(lists[c]) : lists[c][q][1] # v
-            \/ (IsCat(fr, v) /\ ~IsSubseqMissingAtMostOne([q \in 1..Len(lists[c]) |-> lists[c][q][2]], Levels(fr, v)))
+            \/ (IsCat(fr, v) /\ Len(lists[c][1]) = 2 /\ ~IsSubseqMissingAtMostOne([q \in 1..Len(lists[c]) |-> lists[c][q][2]], Levels(fr, v)))
+            \* sum coding: the levels other than the omitted one, in level order, after the optional "mean"
+            \/ (IsCat(fr, v) /\ Len(lists[c][1]) = 4 /\
+                  LET lv == SelectSeq([q \in 1..Len(lists[c]) |-> lists[c][q][2]], LAMBDA x : x # 0)
+                      om == lists[c][1][4]
+                  IN \/ lv # SelectSeq(Levels(fr, v), LAMBDA x : x # om)
+                     \/ \E q \in 1..Len(lists[c]) : lists[c][q][4] # om
+                     \/ \E q \in 2..Len(lists[c]) : lists[c][q][2] = 0)
             \/ (~IsCat(fr, v) /\ lists[c] # << <<v, 0>> >>)
 CommonTermsBad(fr, m) ==
   \E k \in 1..Len(m.slices) :
